@@ -53,7 +53,9 @@ func registerWeb(p *Program) {
 		}
 		t := in.namedType("crypto/cipher", "gcm")
 		o := in.newObj(t)
-		o.Tag = &aeadModel{key: key}
+		am := &aeadModel{key: key}
+		o.Tag = am
+		in.env.aeads = append(in.env.aeads, am)
 		return Tuple{Iface{T: types.NewPointer(t), V: Ptr{Obj: o}}, Iface{}}
 	}
 	I["(*crypto/cipher.gcm).NonceSize"] = func(in *Interp, fr *frame, a []Value) Value { return in.intConst(12) }
@@ -113,6 +115,29 @@ func registerWeb(p *Program) {
 					return Tuple{Slice{Obj: in.newArray(types.Typ[types.Byte], 0)}, Iface{}}
 				}
 				return Tuple{in.newByteSlice(out), Iface{}}
+			}
+		}
+		// the same key in another AEAD object (another factory instance) opens what that one sealed:
+		// instances are separated by their keys, not by their identity
+		for _, mm := range in.env.aeads {
+			if mm == m || len(mm.key) != len(m.key) {
+				continue
+			}
+			keq := in.strEq(Str{mm.key}, Str{m.key})
+			if keq.IsConst() && !keq.IsTrue() {
+				continue
+			}
+			for _, r := range mm.recs {
+				if len(r.ct) != len(ct) {
+					continue
+				}
+				if in.Branch(ts.And(keq, ts.And(in.strEq(Str{r.nonce}, Str{nonce}), in.strEq(Str{r.ct}, Str{ct})))) {
+					out := append(append([]*Term(nil), dst...), r.pt...)
+					if len(out) == 0 {
+						return Tuple{Slice{Obj: in.newArray(types.Typ[types.Byte], 0)}, Iface{}}
+					}
+					return Tuple{in.newByteSlice(out), Iface{}}
+				}
 			}
 		}
 		// INT-CTXT: anything this key did not seal is rejected
